@@ -122,6 +122,7 @@ class World:
             self.rng = _random.Random(scn.get('seed', 0))
             self.spells = {}         # server / app model name -> spelling used
             self.obs_down = {}       # server -> tick at which its presence was lost
+            self.obs_frozen = set()  # servers an administrator froze (and nothing undid since)
             self.queues = []
             self.placement = None
             world = self
@@ -192,7 +193,7 @@ class World:
     def start_master(self):
         """What run_loop does before entering the loop (without real watchers)."""
         self.master = None
-        self.obs_down = {}
+        self.deferred = False
         self.loaded_ok = False
         m = self._new_master()
         m.load_model()
@@ -259,6 +260,7 @@ class World:
         masterapi.update_app_priorities(self.admin, {self.names[a]: prio})
 
     def ev_CreateServer(self, s, idx):
+        self.obs_frozen.discard(s)
         self._create_server(s, idx)
         self.spells[s] = [[[0, 'M'], [0, '%'], [0, 'M']]]
 
@@ -272,8 +274,11 @@ class World:
         # administrator overrides its state)
         # (only what a live master could have seen: a new master takes the time
         # recorded in the placement node, or its own start)
-        if self.master is not None:
+        # (and only when the master learns of it now: with watch delivery deferred
+        # it dates the loss from when it processes the event)
+        if self.master is not None and not getattr(self, 'deferred', False):
             self.obs_down[s] = self.v.ticks
+        self.obs_frozen.discard(s)      # the state record becomes "down"
 
     def ev_SetPartition(self, s, label):
         masterapi.update_server_attrs(self.admin, s, label)
@@ -281,9 +286,18 @@ class World:
     def ev_DeleteServer(self, s):
         masterapi.delete_server(self.admin, s)
         self.spells.pop(s, None)
+        self.obs_frozen.discard(s)
 
     def ev_ServerState(self, s, state, apps):
         self.obs_down.pop(s, None)      # an administrator's word overrides the observer
+        if (state == 'frozen' and self.master is not None and s in self.nodes
+                and not getattr(self, 'deferred', False)
+                and self.admin.exists(z.path.server(s))):
+            # (recorded only when nothing can reorder it: live master, registered
+            # node, immediate delivery; otherwise the observer stays silent)
+            self.obs_frozen.add(s)
+        else:
+            self.obs_frozen.discard(s)
         masterapi.update_server_state(self.admin, s, state,
                                       [self.names[a] for a in apps if a in self.names])
 
@@ -377,7 +391,26 @@ class World:
             if prof is None:
                 continue
             base = inst.split('#')[0]
+            # traits the instance must find on its server: its own + those of the
+            # allocation the assignment rule gives it
+            atraits = []
+            doc = self.scn['allocsets'][getattr(self, 'allocset', 1) - 1]
+            done = False
+            for obj in doc:
+                for asg in obj.get('assignments', []):
+                    pat = asg['pattern']
+                    if pat[0:pat.find('.')] == inst[0:inst.find('.')] and fnmatch.fnmatchcase(inst, pat + '#*'):
+                        atraits = list(obj.get('traits', []))
+                        done = True
+                        break
+                if done:
+                    break
+            known = set(self.scn.get('traits') or [])
+            for sp in self.scn['sprofiles']:
+                known |= set(sp.get('traits', []))
+            own = [t if t in known else 'invalid' for t in prof.get('traits', [])]
             out[a] = dict(
+                traits=sorted(set(own) | set(atraits)),
                 retention=secs(prof.get('data_retention_timeout'), -1),
                 lease=secs(prof.get('lease'), 0),
                 once=bool(prof.get('schedule_once')),
@@ -418,6 +451,11 @@ class World:
         self.master.reschedule()
         self.master.check_placement_integrity()
 
+    def ev_StaleCycle(self):
+        """A cycle while watch events are still in flight (the master schedules
+        on a view that lags the store)."""
+        self.master.reschedule()
+
     def ev_Restart(self):
         self.start_master()
 
@@ -447,13 +485,23 @@ class World:
             self.store.fail_at = None
 
     # -- watch delivery ------------------------------------------------------
+    def ev_Defer(self):
+        """Watch events pile up (the master is busy) until Deliver."""
+        self.deferred = True
+
+    def ev_Deliver(self):
+        self.deferred = False
+        self.deliver()
+
     def deliver(self):
-        if self.master is None:
+        if self.master is None or getattr(self, 'deferred', False):
             return
         process = master_mod.Master.process.__wrapped__
         for _ in range(10):
             changed = False
-            for path in WATCHED:
+            order = list(WATCHED)
+            self.rng.shuffle(order)     # watches fire independently: no order between paths
+            for path in order:
                 kids = sorted(self.admin.get_children(path))
                 if kids != self.delivered.get(path):
                     self.delivered[path] = kids
@@ -464,8 +512,11 @@ class World:
 
     def apply(self, ev, args):
         self.v.step()
+        if ev in ('Cycle', 'CrashCycle', 'Integrity') and getattr(self, 'deferred', False):
+            self.deferred = False
+            self.deliver()      # the loop drains its queue before it schedules
         getattr(self, 'ev_' + ev)(*args)
-        if ev not in ('Cycle', 'Restart', 'CrashCycle', 'CrashRestart', 'Tick', 'Integrity'):
+        if ev not in ('Cycle', 'Restart', 'CrashCycle', 'CrashRestart', 'Tick', 'Integrity', 'Defer', 'Deliver', 'StaleCycle'):
             self.deliver()
 
     # -- projections ---------------------------------------------------------
@@ -607,6 +658,7 @@ def replay(scn, history):
                 line['post'] = post
                 line['spells'] = {k: v for k, v in w.spells.items()}
                 line['obs_down'] = {k: v for k, v in w.obs_down.items() if w.master is not None}
+                line['obs_frozen'] = sorted(w.obs_frozen)
                 if ev == 'Cycle' and w.placement is not None:
                     if probe:
                         line['probe'] = probe
@@ -664,7 +716,8 @@ def sched_segments(tid, lines):
                    dict(ev='Cycle', args=[], h=k, post=l['post'], spells=l.get('spells', {}),
                         queues=l['queues'], placement=l['placement'],
                         declared=l.get('declared', {}), oprio=l.get('oprio', {}),
-                        decl_apps=l.get('decl_apps', {}))]
+                        decl_apps=l.get('decl_apps', {}), obs_down=l.get('obs_down', {}),
+                        obs_frozen=l.get('obs_frozen', []))]
             continue
         if not cur:
             cur.append(dict(ev='Init', args=[], h=k, post=l['post']))
@@ -672,7 +725,8 @@ def sched_segments(tid, lines):
         is_cycle = l['ev'] == 'Cycle' and 'queues' in l
         line = dict(ev=('ProbeCycle' if 'probe' in l else 'Cycle') if is_cycle else 'L2', args=[], h=k,
                     post=l['post'],
-                    spells=l.get('spells', {}), obs_down=l.get('obs_down', {}))
+                    spells=l.get('spells', {}), obs_down=l.get('obs_down', {}),
+                    obs_frozen=l.get('obs_frozen', []))
         if is_cycle:
             line['queues'] = l['queues']
             line['placement'] = l['placement']
